@@ -46,3 +46,20 @@ func init() {
 		real: realCommon, stub: stubCommon,
 	}
 }
+
+func init() {
+	props["C08"] = &propCfg{
+		id: "C08", level: "exploration", race: true, quickN: 3000, thoroughN: 150000, recycle: 300,
+		rule: "One episode = one seeded program assembled from fragments that touch shared constants, compiled functions, source and builtin modules, the file set and the formatter pool; either K=2..5 clones (incl. clones of clones, clones of an object that already ran) each driven by its own thread (Set inputs, Run/RunContext, GetAll, optionally ReplaceBuiltinModule), or 2-3 threads issuing Get/GetAll/IsDefined/Set/Run/RunContext/Clone/Size on ONE object; threads are interleaved per VM instruction and at lock sites by a burst-biased seeded tape. " +
+			"Race build: the simulator's hand-offs are invisible to the race detector and sync.Pools are drained at every context switch, so conflicting unsynchronised accesses are reported whatever the timing. A case is (shape | fragment set); non-trivial when the threads were actually interleaved (more context switches than twice the number of threads).",
+		assume: []string{
+			"happens-before analysis by the Go race detector (4 shadow cells per 8 bytes; history_size=2); a report requires both accesses to be executed in the episode",
+			"solo baselines and serial witnesses come from a separately compiled copy of the same source with freshly built inputs",
+			"Variables returned by Get/GetAll are dereferenced at once only when scalar; containers are dereferenced after all threads have joined (the read is not one of the calls the property names)",
+			"ReplaceBuiltinModule is only issued on a clone that has not been cloned itself (the documented pattern)",
+			"a clean batch is evidence about the explored programs and schedules, not a proof",
+		},
+		real: append(append([]string{}, realCommon...), "Go race detector (ThreadSanitizer runtime) observing the real memory accesses of tengo"),
+		stub: stubCommon,
+	}
+}
